@@ -155,8 +155,20 @@ pub fn leg(id: &str) -> Option<(Vec<(&'static str, u32)>, Vec<&'static str>)> {
     let build: &[(&'static str, u32)] = &[("mkdir_p", 6), ("mkfile", 4), ("write_all", 5), ("symlink", 4)];
     match id {
         "C06" => Some((
-            cat(&[build, &[("write_all", 8), ("append_all", 10), ("append_line", 4), ("append_lines", 4), ("write_lines", 4), ("read_all", 10), ("read_lines", 5), ("copy", 4), ("move_p", 4), ("remove", 2)]]),
-            vec!["write_all", "append_all", "append_line", "append_lines", "write_lines", "read_all", "read_lines"],
+            cat(&[
+                build,
+                &[("write_all", 8), ("append_all", 10), ("append_line", 4), ("append_lines", 4), ("write_lines", 4), ("read_all", 10), ("read_lines", 5), ("copy", 4), ("move_p", 4), ("remove", 2)],
+                &[("open_append", 5), ("open_write", 3), ("h_write", 10), ("h_flush", 2), ("h_drop", 3), ("h_drop_unwind", 1)],
+            ]),
+            vec!["write_all", "append_all", "append_line", "append_lines", "write_lines", "read_all", "read_lines", "append", "write", "h_write", "h_flush", "h_drop", "h_drop_unwind"],
+        )),
+        "C07" => Some((
+            cat(&[
+                build,
+                &[("write_all", 8), ("append_all", 4), ("read_all", 6)],
+                &[("open_read", 8), ("h_read", 14), ("h_seek", 14), ("h_read_to_end", 4), ("open_append", 4), ("open_write", 4), ("h_write", 10), ("h_flush", 3), ("h_drop", 4), ("h_drop_unwind", 1)],
+            ]),
+            vec!["read", "append", "write", "h_read", "h_seek", "h_read_to_end", "h_write", "h_flush", "h_drop", "h_drop_unwind"],
         )),
         "C08" => Some((
             cat(&[build, &[("entries", 25), ("paths", 4), ("dirs", 4), ("files", 4), ("all_paths", 4), ("all_dirs", 4), ("all_files", 4), ("remove", 2), ("move_p", 2)]]),
@@ -246,6 +258,15 @@ fn sanitize(op: &mut Op) {
             }
         },
         Op::Macro { name, mode: Some(m), .. } if name == "mkdir_m" => *m = (*m & 0o170000) | safe_mode(*m, true),
+        // an OS file position is an off_t: positions beyond i64::MAX exist for a Cursor and for a
+        // Memfs handle but for no real file, so the comparison keeps to representable positions
+        Op::HSeek { w, off, .. } => {
+            let lim = 1i64 << 40;
+            *off = match w {
+                crate::ops::Whence::Start => (*off % lim).abs(),
+                _ => *off % lim,
+            };
+        },
         Op::CopyB { calls, .. } => {
             for c in calls.iter_mut() {
                 match c {
@@ -351,6 +372,91 @@ fn admissible(m: &Model, op: &Op) -> bool {
         Op::Copy { .. } | Op::CopyB { .. } => abs[0] != "/",
         _ => true,
     }
+}
+
+/// A handle the DIFF world holds open on both sides (0 = read, 1 = write, 2 = append)
+#[derive(Clone, Debug)]
+struct LiveH {
+    path: String,
+    kind: u8,
+}
+
+fn is_query(op: &Op) -> bool {
+    matches!(
+        op,
+        Op::Abs { .. }
+            | Op::AllDirs { .. }
+            | Op::AllFiles { .. }
+            | Op::AllPaths { .. }
+            | Op::Paths { .. }
+            | Op::Dirs { .. }
+            | Op::Files { .. }
+            | Op::Entries { .. }
+            | Op::Entry { .. }
+            | Op::Exists { .. }
+            | Op::IsDir { .. }
+            | Op::IsFile { .. }
+            | Op::IsExec { .. }
+            | Op::IsReadonly { .. }
+            | Op::IsSymlink { .. }
+            | Op::IsSymlinkDir { .. }
+            | Op::IsSymlinkFile { .. }
+            | Op::Gid { .. }
+            | Op::Uid { .. }
+            | Op::Owner { .. }
+            | Op::Mode { .. }
+            | Op::ReadAll { .. }
+            | Op::ReadLines { .. }
+            | Op::Readlink { .. }
+            | Op::ReadlinkAbs { .. }
+            | Op::Cwd
+            | Op::Root
+            | Op::SetCwd { .. }
+    ) || op.is_handle_op()
+}
+
+/// The two backends buffer differently (Memfs handles hold their bytes until flush, read handles
+/// are snapshots; the OS writes through and reads live). What the handle contracts state is what
+/// both must agree on, so the DIFF world keeps to histories in which that difference cannot show:
+/// a file with a live read or write handle is left alone by other calls, a file with a live
+/// append handle may be read, written and appended to by other calls but not removed, moved,
+/// replaced or re-moded, and every handle write is followed by a flush on both sides.
+fn handle_ok(live: &[Option<LiveH>], m: &Model, op: &Op) -> bool {
+    if live.iter().all(|l| l.is_none()) && !matches!(op, Op::OpenRead { .. } | Op::OpenWrite { .. } | Op::OpenAppend { .. }) {
+        return true;
+    }
+    if is_query(op) {
+        return true;
+    }
+    let abs: Vec<String> = op.paths().iter().filter_map(|p| m.abs(p).ok()).collect();
+    if let Op::OpenRead { p, .. } | Op::OpenWrite { p, .. } | Op::OpenAppend { p, .. } = op {
+        let a = match m.abs(p) {
+            Ok(a) => a,
+            Err(_) => return false,
+        };
+        if matches!(m.k(&a), K::LinkF | K::LinkD) {
+            return false;
+        }
+        let new_append = matches!(op, Op::OpenAppend { .. });
+        return live.iter().flatten().all(|l| l.path != a || (new_append && l.kind == 2));
+    }
+    let mut touched = abs.clone();
+    if let Op::MoveP { .. } | Op::Copy { .. } | Op::CopyB { .. } = op {
+        if abs.len() == 2 && m.k(&abs[1]) == K::Dir {
+            touched.push(tree::join(&abs[1], tree::base(&abs[0])));
+        }
+    }
+    for l in live.iter().flatten() {
+        for a in &touched {
+            if *a == l.path || is_under(&l.path, a) {
+                let content_call = matches!(op, Op::AppendAll { .. } | Op::AppendLine { .. } | Op::AppendLines { .. } | Op::WriteAll { .. } | Op::WriteLines { .. });
+                if !(l.kind == 2 && *a == l.path && content_call) {
+                    return false;
+                }
+            }
+        }
+    }
+    true
 }
 
 fn materialise_disk(sb: &Sandbox, t: &Tree) -> std::io::Result<()> {
@@ -534,6 +640,7 @@ pub fn run_diff(
     };
     let mut i = 0;
     let mut attempts = 0;
+    let mut live: Vec<Option<LiveH>> = vec![None; 4];
     let dangling_ok = prop == "C10";
     while i < total {
         if !in_domain_opt(&m, dangling_ok) {
@@ -548,14 +655,14 @@ pub fn run_diff(
                 }
                 let mut op = gen.next_op(&m, rng);
                 sanitize(&mut op);
-                if !admissible(&m, &op) || !comparable(&op) {
+                if !admissible(&m, &op) || !comparable(&op) || !handle_ok(&live, &m, &op) {
                     continue;
                 }
                 op
             },
             Src::Replay(o) => {
                 let op = o[i].clone();
-                if !admissible(&m, &op) {
+                if !admissible(&m, &op) || !handle_ok(&live, &m, &op) {
                     i += 1;
                     continue;
                 }
@@ -570,8 +677,34 @@ pub fn run_diff(
             println!("T {}", json!({"label": vop.label(), "op": vop}));
             let _ = std::io::stdout().flush();
         }
-        let mo = exec::exec(&mem, &mut mhs, &rop);
-        let so = exec::exec(&std_, &mut shs, &rop);
+        let mut mo = exec::exec(&mem, &mut mhs, &rop);
+        let mut so = exec::exec(&std_, &mut shs, &rop);
+        // buffering is not part of any contract: every open and every handle write is made
+        // visible on both sides before anything is compared
+        if let Op::HWrite { h, .. } | Op::OpenWrite { h, .. } | Op::OpenAppend { h, .. } = &vop {
+            if mo.is_ok() && so.is_ok() {
+                let fm = exec::exec(&mem, &mut mhs, &Op::HFlush { h: *h });
+                let fs = exec::exec(&std_, &mut shs, &Op::HFlush { h: *h });
+                if fm.class3() != fs.class3() || !fm.is_ok() {
+                    mo = fm;
+                    so = fs;
+                }
+            }
+        }
+        match &vop {
+            Op::OpenRead { h, p } | Op::OpenWrite { h, p } | Op::OpenAppend { h, p } => {
+                if mo.is_ok() && so.is_ok() {
+                    let kind = match &vop {
+                        Op::OpenRead { .. } => 0,
+                        Op::OpenWrite { .. } => 1,
+                        _ => 2,
+                    };
+                    live[*h] = m.abs(p).ok().map(|path| LiveH { path, kind });
+                }
+            },
+            Op::HDrop { h } | Op::HDropUnwind { h } => live[*h] = None,
+            _ => {},
+        }
         out.ops.push(vop.clone());
         stats.steps += 1;
         let step = out.ops.len() - 1;
